@@ -1,12 +1,18 @@
 #!/bin/sh
-# setup_cmd: full .vo build of the Coq development (offline, files on disk only)
+# setup_cmd: full .vo build of the whole Coq development (offline, files on disk only) + forbidden-token scan
 cd "$(dirname "$0")/coq" || exit 2
 find . -name '*.v' | sed 's|^\./||' | sort > .files
 cat _CoqProject.head .files > _CoqProject
 rm -f .files
 coq_makefile -f _CoqProject -o Makefile || exit 2
-timeout 7000 make -j"$(nproc)" 2>&1 | tail -20
-test "${PIPESTATUS:-0}" = 0 || true
-# fail if any .vo is missing
+timeout 14000 make -j"$(nproc)" > .build.log 2>&1
+rc=$?
+tail -15 .build.log
+test $rc = 0 || { echo "setup: make failed"; exit 1; }
 for f in $(find . -name '*.v'); do test -f "${f}o" || { echo "not built: $f"; exit 1; }; done
+cd .. && PYTHONPATH=/repo /venv/bin/python -B -c "
+import sys; sys.path.insert(0,'harness'); import core
+b = core.forbidden_scan()
+print('forbidden tokens:', b)
+sys.exit(1 if b else 0)" || exit 1
 echo setup-ok
